@@ -1,5 +1,431 @@
 import U3.Model.Retry
+import U3.Lemmas.Retry
+/-!
+# C04 — retries respect every budget, spare non-idempotent requests, and terminate
+
+All statements are about `U3.Retry.runAttempts cfg r m script` — one `urlopen(method, url,
+retries=r)` call with its recursive calls, the network deciding the outcome of every attempt — for
+**every** `Retry` value `r` (any counters, also negative / `False`), every method string, every
+outcome script of any length, and both kinds of pool (`cfg.proxied`).  The only restricted
+statement is `C04_nonidempotent_not_resent_partial` (direct pools); its negation for proxied pools
+is proved as `C04_proxied_reset_resends_post` (known finding).
+-/
 namespace U3.Props
 open U3 U3.Retry
-theorem C04_placeholder : (1:Nat) = 1 := rfl
+
+/-! ## budgets -/
+
+/-- attempts ≤ 1 + max(total, 0) whenever `total` is a number -/
+theorem C04_attempts_le_total (cfg : Cfg) (r : Retry) (m : Str) (script : List Outcome) (n : Int)
+    (ht : r.total = .num n) :
+    (runAttempts cfg r m script).attempts.length ≤ n.toNat + 1 := by
+  induction script generalizing r n with
+  | nil => simp [runAttempts]
+  | cons o rest ih =>
+    cases run_cases cfg r m o rest with
+    | returned st ra ho hw h => simp [h, Run.stop]
+    | raised x hw hi h => simp [h, Run.stop]
+    | again r' hw hi h =>
+      obtain ⟨htot, hex, -, -, -, -⟩ := Retry.increment_ok hi
+      rw [ht] at htot
+      have hn : 0 ≤ n - 1 :=
+        Retry.nonneg_of_not_exhausted hex (by simp [Retry.counters, htot, Count.dec])
+      have := ih r' (n - 1) htot
+      simp only [h, Run.cons, List.length_cons]
+      omega
+
+example : (runAttempts ⟨false⟩ (Retry.ofTotal (.num 2)) GET
+    [.connectError .timeout, .connectError .refused, .connectError .timeout, .response 200 none]).attempts.length = 3 := by
+  decide
+
+/-- per category: the attempts charged to `connect` / `read` / `status` / `other` after which
+another attempt was made never outnumber that counter (`False` pays for none).  `chargedTo` is the
+code's classification; `C04_direct_classification` says it is the natural one on direct pools.
+(A response with status 0 does not exist in HTTP; `increment` would not charge it.) -/
+theorem C04_category_budgets (cfg : Cfg) (r : Retry) (m : Str) (script : List Outcome) (c : Cat) (b : Nat)
+    (hb : (r.counter c).budget = some b) :
+    ((runAttempts cfg r m script).retried.filter
+        (fun a => decide (chargedTo cfg a.outcome = some c))).length ≤ b := by
+  induction script generalizing r b with
+  | nil => simp [runAttempts, Run.retried]
+  | cons o rest ih =>
+    cases run_cases cfg r m o rest with
+    | returned st ra ho hw h => simp [h, retried_stop]
+    | raised x hw hi h => simp [h, retried_stop _ _ (stopResult_ne_out r o x)]
+    | again r' hw hi h =>
+      obtain ⟨-, hex, -, hcnt, -, -⟩ := Retry.increment_ok hi
+      rw [h, retried_cons _ _ _ (run_attempts_ne_nil cfg r' m rest)]
+      have hc := hcnt c
+      by_cases hcat : (eventOf cfg o).cat = some c
+      · simp only [hcat, if_true] at hc
+        have hmem := Retry.counter_mem r' c
+        cases hrc : r.counter c with
+        | none => simp [hrc, Count.budget] at hb
+        | disabled =>
+          rw [hrc] at hc
+          have := Retry.nonneg_of_not_exhausted hex (n := -1) (by simpa [hc, Count.dec] using hmem)
+          omega
+        | num n =>
+          rw [hrc] at hc hb
+          simp only [Count.dec] at hc
+          have hn : 0 ≤ n - 1 := Retry.nonneg_of_not_exhausted hex (by simpa [hc] using hmem)
+          have := ih r' (n - 1).toNat (by simp [hc, Count.budget])
+          simp only [chargedTo] at this
+          simp only [Count.budget, Option.some.injEq] at hb
+          simp only [List.filter_cons, chargedTo, hcat, decide_true, if_true, List.length_cons]
+          omega
+      · simp only [hcat, if_false] at hc
+        have := ih r' b (by rw [hc]; exact hb)
+        simpa [List.filter_cons, chargedTo, hcat] using this
+
+example : (Retry.counter (Retry.ofTotal (.num 2)) .read).budget = none := by decide
+example : (Retry.counter { Retry.default with read := .num 1 } .read).budget = some 1 := by decide
+
+/-- on a direct pool the code charges every outcome to the counter the property names -/
+theorem C04_direct_classification (o : Outcome) :
+    chargedTo ⟨false⟩ o =
+      match o with
+      | .connectError _ => some .connect
+      | .readError _ => some .read
+      | .otherError => some .other
+      | .response st _ => if st != 0 then some .status else none := by
+  cases o with
+  | connectError k => cases k <;> rfl
+  | readError k => cases k <;> rfl
+  | otherError => rfl
+  | response st ra => rfl
+
+/-- behind a proxy a reset / EOF while reading is charged to `other`, not to `read` (the root of the
+known finding): `http.client` has closed the connection, `has_connected_to_proxy` reads `False`,
+the error is wrapped as `ProxyError`, which is neither a connect nor a read error -/
+theorem C04_proxied_reset_charged_other :
+    chargedTo ⟨true⟩ (.readError .reset) = some .other ∧ chargedTo ⟨true⟩ (.readError .eof) = some .other ∧
+    chargedTo ⟨true⟩ (.readError .timeout) = some .read ∧ chargedTo ⟨true⟩ (.readError .garbage) = some .read := by
+  decide
+
+/-! ## non-idempotent requests -/
+
+-- Full statement (Appendix E), **false** for proxied pools — see `C04_proxied_reset_resends_post`:
+--   thm C04_nonidempotent_not_resent (cfg) (hm : r.isMethodRetryable m = false) (i) (a)
+--       (hi : (runAttempts cfg r m script).attempts[i]? = some a) (ho : reachedServer a.outcome) :
+--       (runAttempts cfg r m script).attempts.length = i + 1
+-- Missing part: `cfg.proxied = true` with a `readError .reset` / `readError .eof` attempt.
+
+/-- direct pools: a method outside `allowed_methods` is never sent again after an attempt that ended
+in a read error or in a response — that attempt is the last one -/
+theorem C04_nonidempotent_not_resent_partial (cfg : Cfg) (hcfg : cfg.proxied = false) (r : Retry) (m : Str)
+    (script : List Outcome) (hm : r.isMethodRetryable m = false) (i : Nat) (a : Attempt)
+    (hi : (runAttempts cfg r m script).attempts[i]? = some a) (ho : reachedServer a.outcome = true) :
+    (runAttempts cfg r m script).attempts.length = i + 1 := by
+  induction script generalizing r i with
+  | nil => simp [runAttempts] at hi
+  | cons o rest ih =>
+    cases run_cases cfg r m o rest with
+    | returned st ra ho' hw h =>
+      rw [h] at hi ⊢
+      cases i with
+      | zero => simp [Run.stop]
+      | succ j => simp [Run.stop] at hi
+    | raised x hw hi' h =>
+      rw [h] at hi ⊢
+      cases i with
+      | zero => simp [Run.stop]
+      | succ j => simp [Run.stop] at hi
+    | again r' hw hi' h =>
+      obtain ⟨-, -, hsame, -, -, herr⟩ := Retry.increment_ok hi'
+      rw [h] at hi ⊢
+      cases i with
+      | zero =>
+        simp only [Run.cons, List.getElem?_cons_zero, Option.some.injEq] at hi
+        subst hi
+        exfalso
+        cases o with
+        | response st ra =>
+          simp only [wants, Retry.isRetry, hm] at hw
+          simp at hw
+        | readError k =>
+          have hcat : errCat (translate cfg (.readError k)) = .read := by
+            cases cfg; simp only at hcfg; subst hcfg
+            cases k <;> rfl
+          obtain ⟨-, hx⟩ := herr _ rfl
+          obtain ⟨mm, hmm, hret⟩ := hx hcat
+          cases hmm
+          simp [hm] at hret
+        | connectError k => simp [reachedServer] at ho
+        | otherError => simp [reachedServer] at ho
+      | succ j =>
+        simp only [Run.cons, List.getElem?_cons_succ] at hi
+        have := ih r' (by rw [Retry.isMethodRetryable_congr hsame]; exact hm) j hi
+        simp [Run.cons, this]
+
+example : (Retry.ofTotal (.num 3)).isMethodRetryable POST = false := by decide
+
+/-- concrete failing script for the proxied model (known finding
+`proxy-read-reset-relabelled-proxyerror`): `Retry(3)`, POST, first attempt reset while reading —
+the request is put on the wire a second time; on a direct pool the same script stops after one -/
+theorem C04_proxied_reset_resends_post :
+    (Retry.ofTotal (.num 3)).isMethodRetryable POST = false ∧
+    (runAttempts ⟨true⟩ (Retry.ofTotal (.num 3)) POST [.readError .reset, .response 200 none]).outcomes
+      = [.readError .reset, .response 200 none] ∧
+    (runAttempts ⟨true⟩ (Retry.ofTotal (.num 3)) POST [.readError .reset, .response 200 none]).result
+      = .response 200 ∧
+    (runAttempts ⟨false⟩ (Retry.ofTotal (.num 3)) POST [.readError .reset, .response 200 none]).outcomes
+      = [.readError .reset] ∧
+    (runAttempts ⟨false⟩ (Retry.ofTotal (.num 3)) POST [.readError .reset, .response 200 none]).result
+      = .reraised (.plain .protocol) := by
+  decide
+
+/-! ## retries=False -/
+
+/-- `total is False`: the first error is re-raised (the translated exception itself, not
+`MaxRetryError`) after exactly one attempt, without sleeping -/
+theorem C04_false_reraises (cfg : Cfg) (r : Retry) (m : Str) (o : Outcome) (rest : List Outcome)
+    (ht : r.total = .disabled) (ho : o.isError = true) :
+    runAttempts cfg r m (o :: rest) = ⟨[⟨o, none⟩], .reraised (translate cfg o)⟩ := by
+  cases o with
+  | response st ra => simp [Outcome.isError] at ho
+  | connectError k => simp [runAttempts, Retry.increment, ht, Run.stop]
+  | readError k => simp [runAttempts, Retry.increment, ht, Run.stop]
+  | otherError => simp [runAttempts, Retry.increment, ht, Run.stop]
+
+example : (Retry.fromInt .false).total = .disabled := by decide
+
+/-! ## termination -/
+
+/-- every attempt consumes one scripted outcome, and with a numeric `total` the loop ends by itself
+(a result other than "script exhausted") within `max(total, 0) + 1` attempts however long the
+script of failures is -/
+theorem C04_terminates (cfg : Cfg) (r : Retry) (m : Str) (script : List Outcome) :
+    (runAttempts cfg r m script).attempts.length ≤ script.length ∧
+    (∀ n : Int, r.total = .num n → n.toNat + 1 ≤ script.length →
+      (runAttempts cfg r m script).result ≠ .outOfScript) := by
+  induction script generalizing r with
+  | nil => exact ⟨by simp [runAttempts], by intro n _ h; simp at h⟩
+  | cons o rest ih =>
+    cases run_cases cfg r m o rest with
+    | returned st ra ho hw h => simp [h, Run.stop]
+    | raised x hw hi h =>
+      simp only [h, Run.stop, List.length_cons, List.length_nil]
+      exact ⟨by omega, fun _ _ _ => stopResult_ne_out r o x⟩
+    | again r' hw hi h =>
+      obtain ⟨htot, hex, -, -, -, -⟩ := Retry.increment_ok hi
+      obtain ⟨ih1, ih2⟩ := ih r'
+      refine ⟨by simp only [h, Run.cons, List.length_cons]; omega, ?_⟩
+      intro n hn hlen
+      rw [hn] at htot
+      have h0 : 0 ≤ n - 1 :=
+        Retry.nonneg_of_not_exhausted hex (by simp [Retry.counters, htot, Count.dec])
+      simp only [h, Run.cons]
+      exact ih2 (n - 1) htot (by simp only [List.length_cons] at hlen; omega)
+
+/-! ## sleeps -/
+
+/-- every `time.sleep` argument is a positive backoff `≤ backoff_max`, or it is the `Retry-After`
+of the response just received and `respect_retry_after_header` is set; after an error it is always
+the former -/
+theorem C04_sleep_bounds (cfg : Cfg) (r : Retry) (m : Str) (script : List Outcome) (a : Attempt) (t : Int)
+    (ha : a ∈ (runAttempts cfg r m script).attempts) (hs : a.sleep = some t) :
+    (0 < t ∧ t ≤ r.backoffMax) ∨
+    (r.respectRetryAfter = true ∧ ∃ st n, a.outcome = .response st (some n) ∧ n ≠ 0 ∧ t = ticks * n) := by
+  induction script generalizing r with
+  | nil => simp [runAttempts] at ha
+  | cons o rest ih =>
+    cases run_cases cfg r m o rest with
+    | returned st ra ho hw h =>
+      rw [h] at ha; simp only [Run.stop, List.mem_singleton] at ha; subst ha; simp at hs
+    | raised x hw hi h =>
+      rw [h] at ha; simp only [Run.stop, List.mem_singleton] at ha; subst ha; simp at hs
+    | again r' hw hi h =>
+      obtain ⟨-, -, hsame, -, -, -⟩ := Retry.increment_ok hi
+      rw [h] at ha
+      simp only [Run.cons, List.mem_cons] at ha
+      rcases ha with rfl | ha
+      · simp only at hs
+        rcases sleep_bound hs with hb | ⟨hrr, rs, n, hresp, hra, hn, ht⟩
+        · exact Or.inl (by rw [← hsame.backoffMax]; exact hb)
+        · right
+          refine ⟨by rw [← hsame.respectRetryAfter]; exact hrr, ?_⟩
+          cases o with
+          | response st ra =>
+            simp only [respOf, Option.some.injEq] at hresp
+            subst hresp
+            simp only at hra
+            subst hra
+            exact ⟨st, n, rfl, hn, ht⟩
+          | connectError k => simp [respOf] at hresp
+          | readError k => simp [respOf] at hresp
+          | otherError => simp [respOf] at hresp
+      · have := ih r' ha
+        rw [hsame.backoffMax, hsame.respectRetryAfter] at this
+        exact this
+
+example : ∃ a ∈ (runAttempts ⟨false⟩ { Retry.default with statusForcelist := [500], backoffFactor := 512 } GET
+    [.response 503 (some 7), .response 500 none, .response 200 none]).attempts, a.sleep = some (ticks * 7) := by
+  decide
+
+/-! ## which statuses are retried -/
+
+/-- a response is followed by another attempt only if the method is retryable and the status is in
+`status_forcelist`, or it is one of the generated `RETRY_AFTER_STATUS_CODES` carrying a
+`Retry-After` header while `respect_retry_after_header` is set -/
+theorem C04_retry_after_gate (cfg : Cfg) (r : Retry) (m : Str) (script : List Outcome) (a : Attempt)
+    (st : Nat) (ra : Option Nat)
+    (ha : a ∈ (runAttempts cfg r m script).retried) (ho : a.outcome = .response st ra) :
+    r.isMethodRetryable m = true ∧
+    (st ∈ r.statusForcelist ∨
+      (st ∈ Gen.retryAfterStatusCodes ∧ ra.isSome = true ∧ r.respectRetryAfter = true)) := by
+  induction script generalizing r with
+  | nil => simp [runAttempts, Run.retried] at ha
+  | cons o rest ih =>
+    cases run_cases cfg r m o rest with
+    | returned st' ra' ho' hw h => rw [h, retried_stop _ _ (by simp)] at ha; simp at ha
+    | raised x hw hi h => rw [h, retried_stop _ _ (stopResult_ne_out r o x)] at ha; simp at ha
+    | again r' hw hi h =>
+      obtain ⟨-, -, hsame, -, -, -⟩ := Retry.increment_ok hi
+      rw [h, retried_cons _ _ _ (run_attempts_ne_nil cfg r' m rest)] at ha
+      rcases List.mem_cons.1 ha with rfl | ha
+      · simp only at ho
+        subst ho
+        simp only [wants] at hw
+        obtain ⟨h1, h2⟩ := isRetry_true hw
+        exact ⟨h1, h2.imp id fun ⟨a, b, c, _⟩ => ⟨a, b, c⟩⟩
+      · have := ih r' ha
+        rw [Retry.isMethodRetryable_congr hsame, hsame.statusForcelist, hsame.respectRetryAfter] at this
+        exact this
+
+/-- the generated table: only 413 / 429 / 503 can be retried on the strength of `Retry-After` -/
+theorem C04_retry_after_codes : ∀ c ∈ Gen.retryAfterStatusCodes, c ∈ [413, 429, 503] := by decide
+
+/-- the generated table: every default allowed method is idempotent (RFC 9110 §9.2.2) -/
+theorem C04_default_methods_idempotent :
+    ∀ x ∈ Gen.defaultAllowedMethods,
+      x ∈ [[72, 69, 65, 68], [71, 69, 84], [80, 85, 84], [68, 69, 76, 69, 84, 69],
+           [79, 80, 84, 73, 79, 78, 83], [84, 82, 65, 67, 69]] := by
+  decide
+
+/-- `Retry()` and `Retry.DEFAULT` use that table and therefore spare POST -/
+theorem C04_default_policy :
+    Retry.default.allowedMethods = some Gen.defaultAllowedMethods ∧
+    Retry.DEFAULT.allowedMethods = some Gen.defaultAllowedMethods ∧
+    Retry.default.isMethodRetryable POST = false ∧ Retry.DEFAULT.isMethodRetryable POST = false ∧
+    Retry.default.respectRetryAfter = true ∧ Retry.default.statusForcelist = [] := by
+  decide
+
+/-! ## how exhaustion surfaces -/
+
+/-- the last attempt explains the result: `MaxRetryError` carries the (translated) error of the last
+attempt, or the `ResponseError` for the last response — and then `raise_on_status` is set; a returned
+response is the last response; a re-raised error is the last attempt's error -/
+theorem C04_exhaustion_surface (cfg : Cfg) (r : Retry) (m : Str) (script : List Outcome) :
+    (∀ c, (runAttempts cfg r m script).result = .maxRetry c →
+      ∃ a, (runAttempts cfg r m script).attempts.getLast? = some a ∧
+        c = Retry.Event.reason (eventOf cfg a.outcome) ∧
+        (a.outcome.isError = false → r.raiseOnStatus = true)) ∧
+    (∀ st, (runAttempts cfg r m script).result = .response st →
+      ∃ a ra, (runAttempts cfg r m script).attempts.getLast? = some a ∧ a.outcome = .response st ra) ∧
+    (∀ e, (runAttempts cfg r m script).result = .reraised e →
+      ∃ a, (runAttempts cfg r m script).attempts.getLast? = some a ∧ a.outcome.isError = true ∧
+        e = translate cfg a.outcome) := by
+  induction script generalizing r with
+  | nil => simp [runAttempts]
+  | cons o rest ih =>
+    cases run_cases cfg r m o rest with
+    | returned st ra ho hw h =>
+      subst ho
+      rw [h]
+      refine ⟨by simp [Run.stop], ?_, by simp [Run.stop]⟩
+      intro st' hst
+      simp only [Run.stop, Result.response.injEq] at hst
+      subst hst
+      exact ⟨⟨.response st ra, none⟩, ra, by simp [Run.stop], rfl⟩
+    | raised x hw hi h =>
+      rw [h]
+      simp only [Run.stop, List.getLast?_singleton, Option.some.injEq, exists_eq_left']
+      rcases Retry.increment_error hi with rfl | ⟨e, he, rfl⟩
+      · cases o with
+        | response st ra =>
+          simp only [stopResult]
+          split
+          · rename_i hros
+            refine ⟨?_, by simp, by simp⟩
+            intro c hc
+            simp only [Result.maxRetry.injEq] at hc
+            exact ⟨hc.symm, fun _ => hros⟩
+          · refine ⟨by simp, ?_, by simp⟩
+            intro st' hst
+            simp only [Result.response.injEq] at hst
+            exact ⟨_, ra, rfl, by rw [hst]⟩
+        | connectError k =>
+          simp only [stopResult]
+          exact ⟨fun c hc => ⟨by simpa using hc.symm, by simp [Outcome.isError]⟩, by simp, by simp⟩
+        | readError k =>
+          simp only [stopResult]
+          exact ⟨fun c hc => ⟨by simpa using hc.symm, by simp [Outcome.isError]⟩, by simp, by simp⟩
+        | otherError =>
+          simp only [stopResult]
+          exact ⟨fun c hc => ⟨by simpa using hc.symm, by simp [Outcome.isError]⟩, by simp, by simp⟩
+      · simp only [stopResult]
+        refine ⟨by simp, by simp, ?_⟩
+        intro e' he'
+        simp only [Result.reraised.injEq] at he'
+        subst he'
+        cases o with
+        | response st ra => simp [eventOf] at he
+        | connectError k => simp only [eventOf, Event.error.injEq] at he; exact ⟨rfl, he.symm⟩
+        | readError k => simp only [eventOf, Event.error.injEq] at he; exact ⟨rfl, he.symm⟩
+        | otherError => simp only [eventOf, Event.error.injEq] at he; exact ⟨rfl, he.symm⟩
+    | again r' hw hi h =>
+      obtain ⟨-, -, hsame, -, -, -⟩ := Retry.increment_ok hi
+      obtain ⟨ih1, ih2, ih3⟩ := ih r'
+      have hlast : ∀ res, (runAttempts cfg r' m rest).result = res → res ≠ .outOfScript →
+          (Run.cons o (r'.sleep (respOf o)) (runAttempts cfg r' m rest)).attempts.getLast?
+            = (runAttempts cfg r' m rest).attempts.getLast? := by
+        intro res hres hne
+        have := run_attempts_ne_nil cfg r' m rest (by rw [hres]; exact hne)
+        simp only [Run.cons]
+        cases hl : (runAttempts cfg r' m rest).attempts with
+        | nil => exact absurd hl this
+        | cons x xs => simp [List.getLast?_cons_cons]
+      rw [h]
+      refine ⟨?_, ?_, ?_⟩
+      · intro c hc
+        simp only [Run.cons] at hc
+        obtain ⟨a, ha, hc', hros⟩ := ih1 c hc
+        exact ⟨a, by rw [hlast _ hc (by simp)]; exact ha, hc', by rw [← hsame.raiseOnStatus]; exact hros⟩
+      · intro st hst
+        simp only [Run.cons] at hst
+        obtain ⟨a, ra, ha, ho⟩ := ih2 st hst
+        exact ⟨a, ra, by rw [hlast _ hst (by simp)]; exact ha, ho⟩
+      · intro e he
+        simp only [Run.cons] at he
+        obtain ⟨a, ha, h1, h2⟩ := ih3 e he
+        exact ⟨a, by rw [hlast _ he (by simp)]; exact ha, h1, h2⟩
+
+example : (runAttempts ⟨false⟩ { Retry.default with total := .num 1, statusForcelist := [500], raiseOnStatus := false } GET
+    [.response 500 none, .response 500 none, .response 200 none]).result = .response 500 := by decide
+example : (runAttempts ⟨false⟩ { Retry.default with total := .num 1, statusForcelist := [500] } GET
+    [.response 500 none, .response 500 none, .response 200 none]).result = .maxRetry (.response (.specific 500)) := by
+  decide
+example : (runAttempts ⟨false⟩ { Retry.default with total := .num 0 } GET
+    [.readError .timeout]).result = .maxRetry (.error (.plain .readTimeout)) := by decide
+
+/-! ## the caller's object -/
+
+/-- `increment` never hands back the object it was called on: the result is a new value whose history
+is one entry longer, and the configuration fields are carried over unchanged.  (The model is
+functional, so the caller's value cannot change; that the Python object's attributes are untouched is
+checked field by field in the correspondence run.) -/
+theorem C04_caller_retry_unchanged (r r' : Retry) (m : Option Str) (ev : Event)
+    (h : r.increment m ev = .ok r') :
+    r' ≠ r ∧ r'.history.length = r.history.length + 1 ∧ Retry.SameConfig r r' := by
+  obtain ⟨-, -, hsame, -, ⟨e, hh⟩, -⟩ := Retry.increment_ok h
+  have hl : r'.history.length = r.history.length + 1 := by simp [hh]
+  refine ⟨?_, hl, hsame⟩
+  intro heq
+  rw [heq] at hl
+  omega
+
+example : ((Retry.ofTotal (.num 3)).increment (some GET) (.error (.plain .readTimeout))).toOption.isSome = true := by
+  decide
+
 end U3.Props
